@@ -1,6 +1,8 @@
 package main
 
 import (
+	"fmt"
+	"os"
 	"go/types"
 	"strings"
 
@@ -140,6 +142,7 @@ func checkNames(p *Program, r *Report) {
 		if exact == nil || prefix == nil {
 			fatalf("unresolved anchor: exact / prefix lookups")
 		}
+		checkLookupSound(p, r, prefix)
 		val := findByCallees(p, "addition validator", funcKey(exact), funcKey(prefix))
 		fk := funcKey(val)
 		cfg := &simCfg{
@@ -312,4 +315,74 @@ func init() {
 		r.NotDecided = []string{"soundness and completeness of the rule over histories", "the cross-table check inside one multi-table Addition (the pinned tree validates each table against the stack only)", "the lookups' handling of same-transaction additions and deletions"}
 		r.Assumptions = []string{"path.Split/strings.TrimSuffix compute the parent directory (library semantics)"}
 	}
+}
+
+// LOOKUP-SOUND: the prefix lookup answers "no live ref under this prefix"
+// only when it ran out of records or looked at a record that the transaction
+// does not delete; a deleted record is skipped, never taken for the answer.
+func checkLookupSound(p *Program, r *Report, prefix *ssa.Function) {
+	fk := funcKey(prefix)
+	cfg := &simCfg{
+		Event: map[string]bool{"method:(Table).SeekRef": true, "(*Iterator).NextRef": true},
+		Pure:  map[string]bool{"strings.HasPrefix": true, "sort.SearchStrings": true},
+		Keep:  map[string]bool{"method:(Table).SeekRef": true},
+	}
+	c, _ := runSim(p, prefix, cfg, nil)
+	n := 0
+	bad := ""
+	var w []string
+	for _, s := range c.Samples {
+		if s.Kind != "ret" || s.Panic || len(s.Vals) != 2 || s.St.truth(tEq(s.Vals[1], tNil)) == 0 {
+			continue
+		}
+		res := s.Vals[0]
+		if os.Getenv("RSA_DEBUG") == "16" {
+			fmt.Fprintf(os.Stderr, "LOOKUP ret %s events=%d\n", res.key, len(s.Events))
+			for k, v := range s.St.facts {
+				fmt.Fprintf(os.Stderr, "    %s = %v\n", k, v)
+			}
+		}
+		n++
+		var lastNext *Term
+		for i, e := range s.Events {
+			if e.Op == "ev" && e.Aux == "(*Iterator).NextRef" && i+1 < len(s.Events) && s.Events[i+1].Op == "evret" {
+				lastNext = s.Events[i+1].Args[0]
+			}
+		}
+		switch {
+		case res == tTrue:
+		case res == tFalse:
+			if lastNext == nil || lastNext.Op != "tuple" || s.St.truth(lastNext.Args[0]) != 0 {
+				bad = "the lookup answers \"no ref under this prefix\" on a path where the iterator was not exhausted (for instance right after a record the transaction deletes): later live refs under the prefix are never looked at"
+				w = witnessOf(p, s.St.trace)
+			}
+		case res.Op == "pcall" && res.Aux == "strings.HasPrefix":
+			recName := res.Args[0]
+			del := -1
+			for k, v := range s.St.facts {
+				t := s.St.fterm[k]
+				if t != nil && t.Op == "maplookup" && len(t.Args) == 2 && t.Args[1] == recName {
+					if v {
+						del = 1
+					} else {
+						del = 0
+					}
+				}
+			}
+			if del != 0 {
+				bad = "the answer is taken from a record that was not checked against the transaction's deletions"
+				w = witnessOf(p, s.St.trace)
+			}
+		default:
+			bad = "the answer " + res.String() + " is not related to an undeleted record or to exhaustion of the iterator"
+			w = witnessOf(p, s.St.trace)
+		}
+	}
+	key := fk + " / a negative answer means no undeleted ref has the prefix"
+	if bad != "" {
+		r.violate("LOOKUP-SOUND", key, p.pos(prefix.Pos()), bad, w)
+	} else {
+		r.ok("LOOKUP-SOUND", key, fmt.Sprintf("%d successful returns: false only after exhaustion, otherwise HasPrefix of an undeleted record", n))
+	}
+	r.floor("LOOKUP-SOUND", n, 3, "successful returns of the prefix lookup")
 }
